@@ -1,6 +1,7 @@
 import QV.Model.Bqm
 import QV.Proofs.Bqm
 import QV.Props.C09
+import QV.Gen.Tables
 /-!
 # C18 – The quadratic-model export has the function's minimisers as ground states
 
@@ -180,6 +181,10 @@ theorem formats_same_tree (q : Quirks) (simp : BExp → BExp) (argBits : List St
   unfold toBqm at h ⊢
   obtain ⟨hs, hn, _⟩ := (toBqmMerged_ok q argBits _ fmt p).mp h
   exact (toBqmMerged_ok q argBits _ fmt' p).mpr ⟨hs, hn, by simpa using hf⟩
+
+/-- the formats of the model are the formats the source offers (`BQMFormat`, table regenerated
+from bqm.py on every run) -/
+theorem formats_from_source : formats = Gen.bqmFormats := by decide
 
 /-- an unknown format is refused -/
 theorem unknown_format_refused (q : Quirks) (simp : BExp → BExp) (argBits : List String)
